@@ -749,15 +749,19 @@ func sameFieldLoadCond(st *pathState, cond ssa.Value) (bool, bool) {
 	if !ok {
 		return false, false
 	}
+	found, truth := false, false
 	for v, t := range st.Facts {
 		if v == cond {
 			continue
 		}
 		if k2, ok := key(v); ok && k2 == k {
-			return t, true
+			if found && t != truth {
+				return false, false // contradictory tests of the same field on one path: decide nothing
+			}
+			found, truth = true, t
 		}
 	}
-	return false, false
+	return truth, found
 }
 
 // provInter: provenance that looks through module helpers: a root that is the
